@@ -227,7 +227,7 @@ Qed.
 
 Lemma limiter_layer_preserves pos inst mw inner : preserves inner -> preserves (limiter_layer pos inst mw inner).
 Proof.
-  intros Hi c w H. unfold limiter_layer.
+  intros Hi c w H. unfold limiter_layer, limiter_layer_gen.
   destruct (nth inst (w_limiters w) _) as [[cfg base] s].
   destruct (lim_acquire cfg s (w_now w - base) 1 mw) as [wt s'].
   set (w1 := set_insts w _ _ _ _). assert (H1 : Tr w1) by (apply Tr_set_insts, H).
